@@ -35,7 +35,7 @@ import (
 
 // contract keywords introduced here (registered from this file so that contract.go stays untouched)
 func init() {
-	for _, k := range []string{"nostrlen", "opaque_strings", "merge_branches"} {
+	for _, k := range []string{"nostrlen", "opaque_strings", "merge_branches", "opaque_field_addrs"} {
 		clauseKeywords[k] = true
 	}
 }
@@ -210,6 +210,39 @@ func (e *Engine) rangeNextFacts(s *State, fr *Frame, x *ssa.Next, it *rangeIter,
 
 // rangeSpec: spec builtins seen(N, k) and rangecnt(N) for map-range loop N of the function under contract.
 func (e *Engine) rangeSpec(env *Env, fun string, args []Expr) (TV, bool, error) {
+	if fun == "rangeidx" {
+		// rangeidx(N): the hidden index variable of slice-range loop N of the function under contract (the plain
+		// identifier `rangeindex` denotes the most recently allocated one, which is ambiguous with nested loops)
+		if env.fr == nil || len(args) != 1 {
+			return TV{}, true, fmt.Errorf("rangeidx(N): only usable in clauses of a function contract")
+		}
+		ni, ok := args[0].(*EInt)
+		if !ok || !ni.Val.IsInt64() {
+			return TV{}, true, fmt.Errorf("rangeidx: argument must be a literal loop ordinal")
+		}
+		for _, l := range e.loopsOf(env.fr.fn).Loops {
+			if l.Ordinal != int(ni.Val.Int64()) {
+				continue
+			}
+			for _, in := range l.Header.Instrs {
+				if st, ok := in.(*ssa.Store); ok {
+					if al, ok := st.Addr.(*ssa.Alloc); ok && al.Comment == "rangeindex" {
+						pv, live := env.fr.regs[al]
+						if !live {
+							return TV{}, true, fmt.Errorf("rangeidx(%d): index variable not yet allocated on this path", l.Ordinal)
+						}
+						v, err := env.s.load(pv.(*Ptr))
+						if err != nil {
+							return TV{}, true, err
+						}
+						return TV{v, types.Typ[types.Int]}, true, nil
+					}
+				}
+			}
+			return TV{}, true, fmt.Errorf("rangeidx(%d): loop is not a range over a slice", l.Ordinal)
+		}
+		return TV{}, true, fmt.Errorf("rangeidx: no such loop in %s", env.fr.fn.Name())
+	}
 	switch fun {
 	case "seen", "rangecnt":
 	default:
@@ -334,7 +367,8 @@ func (e *Engine) coordCheckFresh(s *State, fr *Frame, results []Value, pos ssa.I
 //   mapval(m, k)          the value stored under key k of map m (use under has(m, k))
 //   fresh(x)              x (pointer, map, slice) is non-nil and was allocated after the entry state
 //   keepsMem("T")         every []T backing array that existed in the entry state has its entry contents
-//   keepsMap("K", "V")    every map[K]V that existed in the entry state has its entry domain, values and length
+//   keepsMap("K", "V")    every map[K]V that existed in the entry state has its entry domain and values
+//   keepsMapLen()         every map (of any type) that existed in the entry state has its entry length
 //   keepsField("T", "f")  field f of every T object that existed in the entry state has its entry value
 // "Entry state" is the state old() refers to: function entry in the function's own clauses, the state before
 // the call where a caller uses the contract.
@@ -366,7 +400,7 @@ func (e *Engine) freshSpec(env *Env, fun string, args []Expr) (TV, bool, error) 
 		return TV{env.s.fromTerm(Select(Select(valH, m), k), mt.Elem()), mt.Elem()}, true, nil
 	}
 	switch fun {
-	case "fresh", "keepsMem", "keepsMap", "keepsField":
+	case "fresh", "keepsMem", "keepsMap", "keepsMapLen", "keepsField":
 	default:
 		return TV{}, false, nil
 	}
@@ -457,8 +491,12 @@ func (e *Engine) freshSpec(env *Env, fun string, args []Expr) (TV, bool, error) 
 		if err != nil || vt == nil {
 			return TV{}, true, fmt.Errorf("keepsMap: cannot resolve type %q", vn)
 		}
-		dk, vk, lk := e.mapHeapKeys(types.NewMap(kt, vt))
-		return TV{And(same(dk), same(vk), same(lk)), boolT}, true, nil
+		dk, vk, _ := e.mapHeapKeys(types.NewMap(kt, vt))
+		return TV{And(same(dk), same(vk)), boolT}, true, nil
+	case "keepsMapLen":
+		// the engine keeps one length array for the maps of all types
+		_, _, lk := e.mapHeapKeys(types.NewMap(types.Typ[types.String], types.Typ[types.Int]))
+		return TV{same(lk), boolT}, true, nil
 	case "keepsField":
 		tn, err := strArg(0)
 		if err != nil {
@@ -696,4 +734,69 @@ func (e *Engine) patternUnsafe(t string, depth int) bool {
 		}
 	}
 	return false
+}
+
+// fieldAddrTerm: opt-in (root contract flag `opaque_field_addrs`) abstraction for `p.f = &x.g`: the address of a
+// struct field that is stored into memory becomes an opaque non-nil pointer value. Loads through it are
+// arbitrary; the analysed code must not write through such a pointer (a syntactically visible attempt aborts).
+func (e *Engine) fieldAddrTerm(x *Ptr) (Term, bool) {
+	if e.rootContract == nil || e.rootContract.Flags["opaque_field_addrs"] == "" {
+		return Term{}, false
+	}
+	if x.Kind != pkField || x.Base == nil || x.Base.Kind != pkObj {
+		return Term{}, false
+	}
+	key, _ := e.fieldKey(x.Base.Elem, x.Field)
+	name := "fieldaddr." + sanitize(key)
+	if !e.u.Has(name) {
+		e.u.DeclareFun(name, []string{SInt}, SInt)
+		// never nil, never an object reference handed out by the allocator or present in the initial heap
+		e.u.AddAxiom(name, Term{fmt.Sprintf("(forall ((r Int)) (! (< (%s r) (- 2000000000)) :pattern ((%s r))))", name, name), SBool})
+	}
+	e.abstract("address of a struct field stored in memory: opaque non-nil pointer (reads through it arbitrary, writes through it not supported)")
+	return App(name, SInt, x.Base.Ref), true
+}
+
+// localClosureOf recognises a call through a local variable that holds one closure for its whole life:
+// v = *cell, where the cell is a non-escaping local with exactly one store, of a MakeClosure (NaiveForm keeps
+// `f := func() {...}` in a cell). Used only to make the static write-set analysis look into the closure instead
+// of giving up ("whole heap").
+func localClosureOf(v ssa.Value) *ssa.MakeClosure {
+	u, ok := v.(*ssa.UnOp)
+	if !ok || u.Op.String() != "*" {
+		return nil
+	}
+	al, ok := u.X.(*ssa.Alloc)
+	if !ok || al.Referrers() == nil {
+		return nil
+	}
+	var mc *ssa.MakeClosure
+	for _, ref := range *al.Referrers() {
+		switch r := ref.(type) {
+		case *ssa.Store:
+			if r.Addr != al || mc != nil {
+				return nil // stored twice, or the address itself is stored somewhere
+			}
+			m, ok := r.Val.(*ssa.MakeClosure)
+			if !ok {
+				return nil
+			}
+			mc = m
+		case *ssa.UnOp:
+			// load
+		case *ssa.DebugRef:
+		default:
+			return nil // address passed on: could be reassigned elsewhere
+		}
+	}
+	return mc
+}
+
+// mapLenFacts: facts every Go map satisfies, assumed where a map is looked up or updated (the base model keeps the
+// domain and the length of a map in two unrelated arrays): len(m) >= 0, and a present key implies len(m) >= 1.
+func (e *Engine) mapLenFacts(s *State, mt *types.Map, m, k Term) {
+	domH, _, lenH, _, _, _ := e.mapParts(s, mt)
+	ln := Select(lenH, m)
+	s.assume(Ge(ln, IntLit(0)))
+	s.assume(Implies(And(Not(Eq(m, IntLit(0))), Select(Select(domH, m), k)), Ge(ln, IntLit(1))))
 }
